@@ -1,0 +1,45 @@
+//go:build verif
+
+package dragonboat
+
+// Hook for the C20 verification harness (quorum-loss repair by
+// tools.ImportSnapshot): the log store of a NodeHost directory opened the way
+// NewNodeHost opens it (NodeHost.createLogDB: directory creation, lock, LogDB
+// factory with the data and the low latency directories, type and directory
+// checks), without starting anything else. Add-only; compiled only with
+// -tags verif.
+
+import (
+	"github.com/lni/dragonboat/v4/config"
+	"github.com/lni/dragonboat/v4/internal/server"
+	"github.com/lni/dragonboat/v4/raftio"
+)
+
+// VerifC20OpenLogDB validates and prepares nhConfig as NewNodeHost does and
+// runs the real NodeHost.createLogDB. The returned function closes the log
+// store and releases the directory lock.
+func VerifC20OpenLogDB(nhConfig config.NodeHostConfig) (raftio.ILogDB, func() error, error) {
+	if err := nhConfig.Validate(); err != nil {
+		return nil, nil, err
+	}
+	if err := nhConfig.Prepare(); err != nil {
+		return nil, nil, err
+	}
+	env, err := server.NewEnv(nhConfig, nhConfig.Expert.FS)
+	if err != nil {
+		return nil, nil, err
+	}
+	nh := &NodeHost{env: env, nhConfig: nhConfig, fs: nhConfig.Expert.FS}
+	if err := nh.createLogDB(); err != nil {
+		if nh.mu.logdb != nil {
+			_ = nh.mu.logdb.Close()
+		}
+		_ = env.Close()
+		return nil, nil, err
+	}
+	closer := func() error {
+		err := nh.mu.logdb.Close()
+		return firstError(err, env.Close())
+	}
+	return nh.mu.logdb, closer, nil
+}
